@@ -79,7 +79,7 @@ let state_tokens (s : session) : String.t list =
       token_of_str s.p_attrs; expand_tok s.p_opts ]
   @ [ "ids"; string_of_int (List.length s.s_ids) ] @ List.map token_of_str s.s_ids
 
-let fuel = ref (nat_of_int 100000)
+let fuel = ref (nat_of_int 4000)
 
 let find_regex (name : String.t) : cre =
   let key = str_of_ascii name in
